@@ -2,6 +2,7 @@
 mod defs;
 mod c28;
 mod c29;
+mod c30;
 mod proxy;
 use vhc::*;
 
@@ -10,6 +11,7 @@ fn main() {
         |prop, ctx| match prop {
             "C28" => Some(c28::cases(ctx)),
             "C29" => Some(c29::cases(ctx)),
+            "C30" => Some(c30::cases(ctx)),
             _ => None,
         },
         |prop, out| match prop {
